@@ -57,6 +57,7 @@ def shards(tier, seed):
     out.append(("factor_struct", dict(kind="factor_struct", count=150 if q else 2500)))
     out.append(("gcdlcm", dict(kind="gcdlcm", count=1500 if q else 40000)))
     out.append(("code_constants", dict(kind="consts")))
+    out.append(("next_prime_seams", dict(kind="seams", gaps=1 if q else 4, cmax=600 if q else 8192)))
     return out
 
 
@@ -294,6 +295,40 @@ def run(ctx, name, kind, **kw):
             if n < 1 << 40:
                 chk_next(ctx, n - 1, nt.next_prime(n - 1), "next_prime.code_constant", key=None)
                 chk_factor(ctx, n, "factorization.code_constant", key=None)
+    elif kind == "seams":
+        # block / window sizes written into next_prime's own code are candidate seams: for each integer literal c found there, take
+        # prime gaps LONGER than c (found with the reference at a size where such gaps are common) and ask for the next prime from
+        # every start that puts the true answer c-1, c, c+1, c+2 candidates away.  Costs nothing while the function has no such literal.
+        from vf import gen
+        consts = sorted(c for c in gen.code_int_constants(NT.next_prime) if 16 <= c <= kw["cmax"])
+        ctx.count("next_prime_code_literals", len(consts))
+        small = nt.primes_below(2000)
+        for c in consts:
+            bits = max(70, int(c / 0.69))
+            found = 0
+            tries = 0
+            while found < kw["gaps"] and tries < 400 and not ctx.expired():
+                tries += 1
+                start = rng.getrandbits(bits) | (1 << (bits - 1)) | 1
+                # previous and next prime around start, by the reference (trial division first)
+                def isp(v):
+                    return all(v % q_ for q_ in small) and nt.is_prime(v, 2, rng)
+                lo = start
+                while not isp(lo):
+                    lo -= 2
+                hi = start + 2
+                while not isp(hi):
+                    hi += 2
+                if hi - lo <= c + 4:
+                    continue
+                found += 1
+                for off in (c - 2, c - 1, c, c + 1, c + 2, c + 3, 2 * c, 2 * c + 1):
+                    n0 = hi - off
+                    if n0 <= lo:
+                        continue
+                    chk_next(ctx, n0, hi, "next_prime.seam", key="c%d|%d" % (c, off - c))
+        if not consts:
+            ctx.case("next_prime.seam", key="no literal in [16, %d] in next_prime's code" % kw["cmax"], nontrivial=False)
     elif kind == "gcdlcm":
         small = nt.primes_below(60)
         for i in range(kw["count"]):
